@@ -25,6 +25,8 @@ WorkerChecks(r) ==
     \cup (IF "login" \in DOMAIN r /\ r.login = "lost" THEN {"LoginDropped"} ELSE {})
     \* an event that cannot be written ends the worker with that error (C05), through the whole ingester chain
     \cup (IF "login" \in DOMAIN r /\ r.login = "werr:lost" THEN {"WriteErrorLost"} ELSE {})
+    \* a session that never got its login stays silent, also while the processor shuts down (C04)
+    \cup (IF "login" \in DOMAIN r /\ r.login = "leak" THEN {"UncorrelatedEmittedAtShutdown"} ELSE {})
 
 Failures == {"sshd-eof", "audit-eof", "sshd-eof-partial", "audit-eof-partial", "audit-malformed", "audit-unknown-type",
              "output-fails", "output-breaks-inflight", "output-breaks-staggered", "sshd-not-fifo", "sshd-missing",
